@@ -1590,7 +1590,9 @@ def run(ctx):
         'closure_reached': closed,
         'bound': ('closure of the canonical settings state space (histories of any length over the alphabet); '
                   + ('statements / .run / .explain in every state within two .set changes of the default'
-                     if ctx.quick else 'statements / .run / .explain in every state')),
+                     if ctx.quick else 'statements / .run / .explain in every state')
+                  + f'; sessions of length 1..{file_session_length(ctx.thorough)} over 8 commands with the shell writing to a '
+                    'file of its own'),
         'settings_states_expected': expected_states,
         'settings_states_reached': len(reached_models),
         'longest_shortest_history': st.max_depth_seen,
